@@ -2,7 +2,7 @@
 from . import shared as S
 
 META = {
-    'claim_added': 'Also decided: Node.get_attribute answers only for exactly one matching key (a repeated key cannot be checked on one occurrence and constructed from another); only effective removals count in the exempt-set extraction. Round 3: inside the pair loop neither the rejection of non-string keys nor the stripping stands under a foreign condition (merge keys skipped).',
+    'claim_added': 'Also decided: Node.get_attribute answers only for exactly one matching key (a repeated key cannot be checked on one occurrence and constructed from another); only effective removals count in the exempt-set extraction. Round 3: inside the pair loop neither the rejection of non-string keys nor the stripping stands under a foreign condition (merge keys skipped). Round 6 (E14): caches on the code this property is about are invisible - no value that lives in a memo cell (dict / lazily filled attribute / lru_cache) is modified by the code it is handed to, the key of a cell contains every input its value depends on, no mutable parameter default is modified or handed out; given that, the program is analysed as if every lookup missed.',
     'level': 'other',
     'technique': 'static: class-hierarchy facts (MRO), who-may-register / who-may-call rules with resolved receivers, taint '
                  'of document-derived names into getattr/import/eval sinks, dominance (strip before construct, retag on every '
